@@ -17,7 +17,7 @@ from vmon.res import Result, exc_name
 
 ID = "C06"
 LEVEL = "exploration"
-CASES = {"quick": 3000, "thorough": 48000}
+CASES = {"quick": 3000, "thorough": 384000}
 RULE = ("(a) seeded random programs of 12-30 DataFrame operations on frames that include legacy fixed-width string, float32/int32, bytes, "
         "timedelta and object columns, (b) single calls of every public Vector method returning a vector (as_*, concat, drop_na, head, "
         "tail, map, range, rank, replace_na, sample, sort, unique, to_strings, dt/re/str proxies) on vectors of every dtype; monitors: "
